@@ -154,6 +154,13 @@ mod sched_impl {
                 Sched::Bytes(b) => Box::new(ByteScheduler::new(b.clone())),
                 Sched::Os => panic!("Sched::Os is not available in the schedule-controlled flavour"),
             };
+            // the extra switch point after every unlock of the crate's mutexes: on for the
+            // schedules with an even seed (a pure function of the Sched value, so replays agree)
+            shim_rt::set_yield_after_unlock(match &self.list[self.next] {
+                Sched::Random { seed } | Sched::Pct { seed, .. } => seed % 2 == 0,
+                Sched::Bytes(b) => b.first().map(|x| x % 2 == 0).unwrap_or(true),
+                Sched::Os => true,
+            });
             self.next += 1;
             let r = inner.new_execution();
             self.cur = Some(inner);
